@@ -279,7 +279,9 @@ def usable(cases):
 
 def run_driver(ctx, tool, tier, focus, name="sched"):
     p = os.path.join(ctx.scratch, name + ".jsonl")
-    rc, out, dt = vlib.run_tool(tool, [p, tier, focus], env_extra={"VERIF_SEED": str(ctx.seed)}, timeout=3000)
+    # the driver has its own per-run watchdog, hung budget and time limit (300 s / 1500 s); this timeout is a last resort
+    rc, out, dt = vlib.run_tool(tool, [p, tier, focus], env_extra={"VERIF_SEED": str(ctx.seed)},
+                                timeout=1700 if tier == "thorough" else 420)
     if rc != 0:
         return None, out, dt
     return vlib.read_jsonl(p), out, dt
@@ -291,7 +293,7 @@ def rerun(ctx, tool, cases, name="rerun"):
         for c in cases:
             f.write(json.dumps(inputs_of(c)) + "\n")
     p = os.path.join(ctx.scratch, name + "-out.jsonl")
-    rc, out, dt = vlib.run_tool(tool, [p, "replay", p_in], timeout=1200)
+    rc, out, dt = vlib.run_tool(tool, [p, "replay", p_in], timeout=420)
     return usable(vlib.read_jsonl(p)) if rc == 0 else []
 
 
@@ -480,6 +482,13 @@ def evaluate(ctx, pid, tool, cases, tag, shrink_fail=True):
     accepted = 0
     for pos, c in enumerate(cases):
         v = bad.get(pos, [0, 0, 1, 1, 1, 1])
+        if c.get("hung"):
+            # the model proves every execution finite (C15_all_executions_finite) and the scheduler never stuck
+            # (C15_progress): a run that does not return is a concrete failing input of C15, a break for the others
+            what = ("the run did not terminate: Schedule had not returned after the watchdog time (%s); maxActiveRuns=%d"
+                    % (c.get("note") or "", c["maxactive"]))
+            ctx.fail("monitor" if pid == "C15" else "correspondence", "%s: %s" % (pid, what), c, cls=dict(classify(c), hung=True))
+            continue
         why = pymon(c)
         coq_mon_ok = v[MON_POS[pid]] == 1
         if why is not None or not coq_mon_ok:
@@ -542,6 +551,10 @@ def run_family(ctx, pid, replay_cases=None):
     else:
         cases = rerun(ctx, tool, replay_cases, "replay")
     lost = [c for c in cases if not c.get("final")]
+    skipped = [c for c in lost if (c.get("note") or "").startswith("skipped:")]
+    lost = [c for c in lost if c not in skipped]
+    if skipped:
+        ctx.notes.append("%d generated case(s) were not run: %s" % (len(skipped), skipped[0]["note"]))
     if lost:
         ctx.fail("correspondence", "the driver could not run %d generated case(s): %s" % (len(lost), (lost[0].get("note") or "")[:200]),
                  inputs_of(lost[0]))
